@@ -194,9 +194,11 @@ DECIMAL_CALIBS = [(Fr(0.1), Fr(179.9), Fr(544.5), Fr(2400.3)), (Fr(-33.3), Fr(66
 
 
 def top_exact(lo, hi):
-    """executable guard of finding F-C19-servo-bound-ulp (Host/ServoFloat.v top_exact): in binary64, lo + (hi - lo) == hi"""
+    """executable guard of finding F-C19-servo-bound-ulp (Host/ServoFloat.v top_ok, the guard of
+    C19_servo_binary64_bounds_reachable_partial): in binary64, lo + (hi - lo) <= hi - the image of the top of the range is
+    not above the bound (it is the bound itself, or an ulp below it)"""
     lo, hi = float(lo), float(hi)
-    return lo + (hi - lo) == hi
+    return lo + (hi - lo) <= hi
 
 
 def in_guard(bounds):
